@@ -79,6 +79,7 @@ let cfg_line (w : string list) =
   | _ -> out ("bad-cfg " ^ String.concat " " w)
 
 (* ---- simulated bus ---- *)
+let cur_tree = ref 0        (* the simulator's current tree: sim_tree sets it, a start enumerates it (sim_reset: 0) *)
 let sim_nodes : (int * int * int * int * n list) list ref = ref []     (* tree, id, parent, local, uid *)
 let sim_changes : (string * int * int) list ref = ref []
 let build_tree (tr : int) : tree option =
@@ -125,10 +126,10 @@ let () =
     | c :: _ when String.length c > 0 && c.[0] = '#' -> ()
     | "case" :: id :: _ -> flush_out (); out ("case " ^ id)
     | "newprocess" :: _ -> st := life0; thlog := false
-    | "sim_reset" :: _ -> sim_nodes := []; sim_changes := []; silent := false; icap := 64
+    | "sim_reset" :: _ -> sim_nodes := []; sim_changes := []; silent := false; icap := 64; cur_tree := 0
     | "sim_node" :: tr :: id :: p :: l :: u :: _ -> sim_nodes := (num tr, num id, num p, num l, unhex u) :: !sim_nodes
     | "sim_change" :: a :: r :: tr :: _ -> sim_changes := !sim_changes @ [(a, num r, num tr)]
-    | "sim_tree" :: tr :: _ -> (match build_tree (num tr) with Some t -> st := { !st with l_tree = t } | None -> out "bad-tree")
+    | "sim_tree" :: tr :: _ -> (match build_tree (num tr) with Some t -> cur_tree := num tr; st := { !st with l_tree = t } | None -> out "bad-tree")
     | "sim_opt" :: "silent" :: v :: _ -> silent := (v <> "0")
     | "sim_opt" :: "cap" :: v :: _ -> icap := num v
     | "sim_opt" :: "thlog" :: v :: _ -> thlog := (v <> "0")
@@ -136,7 +137,7 @@ let () =
     | "simstart" :: dbg :: _dir :: fl :: _ ->
         let pend = List.filter_map (fun (a, r, tr) -> match build_tree tr with
                                      | Some t -> Some ((addr_of_hex a, n_of_int r), t) | None -> None) !sim_changes in
-        let t0 = (match build_tree 0 with Some t -> t | None -> T ([], [])) in
+        let t0 = (match build_tree !cur_tree with Some t -> t | None -> T ([], [])) in
         let (s1, evs) = life_step fuel !st (LStart (dbg <> "0", !cfg_ok, num fl > 0, not !silent, !cfg, t0, pend, n_of_int !icap)) in
         st := s1; emit_levs evs
     | "stop" :: _ -> let (s1, evs) = life_step fuel !st LStop in st := s1; emit_levs evs; out "stopped"
